@@ -235,6 +235,19 @@ theorem c12_body_spec (s : KV) (k v : Int) :
       simp [hn, KV.get_set]
   · exact KV.get_foldl_del ks s k'
 
+/-- `c12_seq_handle_current` (iterator handles): `All()` itself performs no event — the
+extracted body of `All` is exactly the returned closure `[rlock, read, callFn, runlock]`
+(regenerated fact; a read of `s.entries` at the time `All()` is CALLED would be an extra
+event and fail `c12_model_matches_facts`).  Hence a `Seq2` obtained earlier carries no
+state: ranging it — once, twice, after `Clear`/`Set`/`Map` — is the call `.all lim` on the
+CURRENT map: it yields `s.take (max lim 1)` of the map `s` at ranging time and leaves it
+unchanged. -/
+theorem c12_seq_handle_current :
+    Gen.C12.methods.lookup "All" = some [.rlock, .read, .callFn, .runlock] ∧
+    ∀ (s : KV) (lim : Nat),
+      (seqCall (.all lim) s).2.out = s.take (max lim 1) ∧ (seqCall (.all lim) s).1 = s :=
+  ⟨by decide, fun _ _ => ⟨rfl, rfl⟩⟩
+
 /-- Corollary (`SetX` never creates a key), sequentially; by `c12_atomic` every
 concurrent history is such a sequential history. -/
 theorem c12_setx_never_creates (s : KV) (k v : Int) (h : s.get k = none) :
